@@ -16,6 +16,10 @@ GHOST_SORTS = {
     "ghost.wat": arr(IntS, StrS),
     # the dom[int,Node] heap field (all node registries) as it was when the i-th line was written
     "ghost.wdom": arr(IntS, arr(Ref, arr(IntS, BoolS))),
+    # the clock tick observed by the last time.localtime() call (A-CLOCK)
+    "ghost.clock_now": IntS,
+    # per message object: how many times Gateway.send handed its line to the transport successfully
+    "ghost.wcnt": arr(Ref, IntS),
 }
 
 
@@ -89,6 +93,96 @@ def sf_appended(I, fr, *lines):
     for j, l in enumerate(lines):
         a = z3.Store(a, wl0 + j, sterm(I, l))
     return Sym(z3.And(wl1 == wl0 + len(lines), wa1 == a), "bool")
+
+
+def _pairs(args):
+    return [(args[i], args[i + 1]) for i in range(0, len(args), 2)]
+
+
+def _appended_if_terms(I, fr, pairs):
+    new, old = heaps(fr)
+    wl0, wa0 = gget(I, old, "ghost.wlen"), gget(I, old, "ghost.wat")
+    pos, a = wl0, wa0
+    for cond, l in pairs:
+        c = I.as_bool(I.truthy(cond))
+        a = z3.If(c, z3.Store(a, pos, sterm(I, l)), a)
+        pos = z3.If(c, pos + 1, pos)
+    return pos, a
+
+
+def sf_appended_if(I, fr, *args):
+    """appended_if(c1, l1, c2, l2, ...): the log grew by exactly the lines whose condition holds, in order."""
+    new, old = heaps(fr)
+    pos, a = _appended_if_terms(I, fr, _pairs(args))
+    return Sym(z3.And(gget(I, new, "ghost.wlen") == pos, gget(I, new, "ghost.wat") == a), "bool")
+
+
+def sf_appended_prefix_if(I, fr, *args):
+    """A write failed: the log grew by the due lines before some due line j, which was not written."""
+    new, old = heaps(fr)
+    pairs = _pairs(args)
+    alts = []
+    for j in range(len(pairs)):
+        pos, a = _appended_if_terms(I, fr, pairs[:j])
+        cj = I.as_bool(I.truthy(pairs[j][0]))
+        alts.append(z3.And(cj, gget(I, new, "ghost.wlen") == pos, gget(I, new, "ghost.wat") == a))
+    return Sym(z3.Or(*alts) if alts else z3.BoolVal(False), "bool")
+
+
+def sf_nothing_changed(I, fr, *except_prefixes):
+    """Every heap field is identical in both states (optionally except names starting with the given prefixes)."""
+    new, old = heaps(fr)
+    cs = []
+    for n, a in new.cur.items():
+        if n == "alive" or any(n.startswith(p) for p in except_prefixes):
+            continue
+        b = old.get(n, a.sort())
+        if not z3.eq(a, b):
+            cs.append(a == b)
+    return Sym(z3.And(*cs) if cs else z3.BoolVal(True), "bool")
+
+
+def sf_registry_unchanged(I, fr):
+    """No node, child or value changed: every Node.*, Child.* field and the three registry dict kinds are identical."""
+    new, old = heaps(fr)
+    cs = []
+    for n, a in new.cur.items():
+        if n.startswith("Node.") or n.startswith("Child.") or n in (
+                "dom[int,Node]", "map[int,Node]", "dom[int,Child]", "map[int,Child]", "dom[int,str]", "map[int,str]"):
+            b = old.get(n, a.sort())
+            if not z3.eq(a, b):
+                al = old.get("alive", arr(Ref, BoolS))
+                r = z3.Const("r_ru", Ref)
+                # fields of objects that did not exist before may differ (unreachable garbage)
+                cs.append(z3.ForAll([r], z3.Implies(z3.Select(al, r), z3.Select(a, r) == z3.Select(b, r))))
+    return Sym(z3.And(*cs) if cs else z3.BoolVal(True), "bool")
+
+
+def sf_clock_now(I, fr):
+    return Sym(gget(I, fr.heap, "ghost.clock_now"), "int")
+
+
+def sf_select_idx(I, fr, M, m):
+    """C05: index (0..4 = 1.4,1.5,2.0,2.1,2.2) of the newest supported protocol whose major.minor <= (M, m)."""
+    M, m = iterm(I, M), iterm(I, m)
+
+    def ge(a, b):
+        return z3.Or(M > a, z3.And(M == a, m >= b))
+    return Sym(z3.If(ge(2, 2), 4, z3.If(ge(2, 1), 3, z3.If(ge(2, 0), 2, z3.If(ge(1, 5), 1, 0)))), "int")
+
+
+def sf_av_valid(I, fr, s):
+    return Sym(L.av_valid(sterm(I, s)), "bool")
+
+
+def sf_av_section(I, fr, s, i):
+    return Sym(L.av_section(sterm(I, s), iterm(I, i)), "int")
+
+
+def sf_float_ok(I, fr, s):
+    t = sterm(I, s)
+    f = L.parse_float(t)
+    return Sym(z3.And(L.floatlit(t), z3.Not(L.f_isnan(f)), z3.Not(L.f_isinf(f))), "bool")
 
 
 def sf_log_unchanged(I, fr):
@@ -224,7 +318,34 @@ def sf_wdom_recorded(I, fr):
     return Sym(wd1 == z3.Store(wd0, gget(I, old, "ghost.wlen"), cur), "bool")
 
 
+def sf_wcnt(I, fr, m):
+    return Sym(z3.Select(gget(I, fr.heap, "ghost.wcnt"), m.ref), "int")
+
+
+def sf_wcnt_bumped(I, fr, m):
+    new, old = heaps(fr)
+    w0, w1 = gget(I, old, "ghost.wcnt"), gget(I, new, "ghost.wcnt")
+    return Sym(w1 == z3.Store(w0, m.ref, z3.Select(w0, m.ref) + 1), "bool")
+
+
+def sf_k3n(I, fr, q):
+    return Sym(k3n(I.to_term(q, TKey3)), "int")
+
+
+def sf_loop_done(I, fr):
+    """Witness for the set of keys a (possibly interrupted) for-loop has processed on this path."""
+    d = getattr(I, "last_done", None)
+    if d is None:
+        d = z3.K(Key3, z3.BoolVal(False))
+    return L.SetVal(d, TKey3)
+
+
 SPEC_GLOBALS = {
+    "loop_done": sf_loop_done,
+    "wcnt": sf_wcnt, "wcnt_bumped": sf_wcnt_bumped, "k3n": sf_k3n,
+    "appended_if": sf_appended_if, "appended_prefix_if": sf_appended_prefix_if, "nothing_changed": sf_nothing_changed,
+    "registry_unchanged": sf_registry_unchanged, "clock_now": sf_clock_now, "select_idx": sf_select_idx,
+    "av_valid": sf_av_valid, "av_section": sf_av_section, "float_ok": sf_float_ok,
     "the_stored_key": sf_the_stored_key, "regs_at": sf_regs_at, "wdom_recorded": sf_wdom_recorded,
     "dec": sf_dec, "line": sf_line, "enc": sf_enc, "key3": sf_key3,
     "wlen": sf_wlen, "wat": sf_wat, "appended": sf_appended, "log_unchanged": sf_log_unchanged,
